@@ -1529,8 +1529,12 @@ impl FixtureDatabase {
         let mut visited: HashSet<String> = HashSet::new();
         let mut seen_cycles: HashSet<String> = HashSet::new(); // Deduplicate cycles
 
-        // Iterative DFS using explicit stack
-        for start_fixture in dep_graph.keys() {
+        // Iterative DFS using explicit stack.
+        // Visit start nodes in sorted order so that the fixture a cycle is reported on
+        // does not depend on HashMap iteration order (which differs between runs).
+        let mut start_fixtures: Vec<&String> = dep_graph.keys().collect();
+        start_fixtures.sort();
+        for start_fixture in start_fixtures {
             if visited.contains(start_fixture) {
                 continue;
             }
